@@ -9,13 +9,20 @@ pub trait TreapItemSized {
     fn size(&self) -> usize;
 }
 
-static mut RNG: Rng = Rng::from_seed(42);
+thread_local! {
+    // one generator per thread: nodes can be created on several threads at once
+    static RNG: std::cell::Cell<Rng> = std::cell::Cell::new(Rng::from_seed(42));
+}
 
 type Priority = u32;
 
-#[allow(static_mut_refs)]
 fn gen_priority() -> Priority {
-    unsafe { RNG.next_raw() as Priority }
+    RNG.with(|cell| {
+        let mut rng = cell.get();
+        let priority = rng.next_raw() as Priority;
+        cell.set(rng);
+        priority
+    })
 }
 
 pub struct TreapNode<T> {
